@@ -15,6 +15,13 @@
 //     model over the detectors whose resource is to be kept.
 //   - FuzzEnvAttrs (fuzz_test.go): native fuzzing of the environment string.
 //
+// Schema URLs (schema_test.go) are opaque strings for every oracle: "common"
+// means the same string, any other two non-empty URLs "differ". Each case
+// draws a small pool (a base, near misses of it by one edit, an unrelated
+// URL); operands are built at every public place that stores a schema URL:
+// NewWithAttributes, New(WithSchemaURL, ...) in several option spellings, and
+// (detect_fold) resource.StringDetector.
+//
 // Readings of the statement chosen where it is ambiguous (conservative):
 //
 //   - "valid" for a constructor item is attribute.KeyValue.Valid as documented
@@ -32,17 +39,28 @@
 //     "non-empty one / common one / empty + conflict error"); no direct
 //     comparison of the two association orders' schema URLs is made when a
 //     conflict arises.
+//   - A resource built with schema URL S by any constructor has schema URL S
+//     (that is what "the non-empty one / the common one" refers to); New with
+//     one WithSchemaURL and schemaless WithAttributes options has nothing to
+//     conflict and must not report an error.
+//   - WithFromEnv is a detector at the position of its option: neighbours
+//     given with WithAttributes before / after it lose / win on shared keys
+//     ("give OTEL_SERVICE_NAME and later detectors precedence").
 //   - A nil result of Merge is not required to be non-nil (nil is documented
 //     as equivalent to the empty resource); it is observed through the
 //     nil-safe accessors.
 package c19
 
 import (
+	"context"
 	"errors"
 	"fmt"
 	"math"
 	"sort"
+	"strconv"
+	"strings"
 	"testing"
+	"unicode/utf8"
 
 	"go.opentelemetry.io/otel/attribute"
 	"go.opentelemetry.io/otel/sdk/resource"
@@ -55,9 +73,16 @@ import (
 
 // Res describes how one operand resource is built.
 type Res struct {
-	Kind   string  `json:"kind"`   // nil | empty | schemaless | attrs
-	Schema string  `json:"schema"` // used by kind attrs only
+	// nil | empty | schemaless (NewSchemaless) | attrs (NewWithAttributes) |
+	// new (resource.New with WithSchemaURL + WithAttributes, the other public
+	// place that stores a schema URL).
+	Kind   string  `json:"kind"`
+	Schema string  `json:"schema"` // used by kinds attrs and new
 	KVs    []vk.KV `json:"kvs"`
+	// Variant (kind new): 0 WithSchemaURL first, 1 WithSchemaURL last, 2 the
+	// list split over two WithAttributes options (only WithSchemaURL when the
+	// list is empty), 3 WithSchemaURL only when the list is empty, else as 0.
+	Variant int `json:"variant,omitempty"`
 }
 
 // MergeCase is one generated triple.
@@ -68,11 +93,10 @@ type MergeCase struct {
 }
 
 var (
-	schemas       = []string{"", "https://s1", "https://s2"}
-	schemasBiased = []string{"", "https://s1", "https://s2", "https://s1", "https://s2"}
-)
-
-var (
+	// wildKeys: keys are arbitrary non-empty strings for the statement; this
+	// alphabet holds prefixes of each other, letter case, delimiters of the
+	// text encodings, white space, NUL, multi-byte and invalid UTF-8.
+	wildKeys  = []string{"k", "kk", "k.k", "K", "k ", " k", "k=", "k,", "k\\", "k=v,k", "k\x00", "k\xff", "\xff", "é", "e\u0301", "世", "\t", "service.name", "service.name "}
 	shortKeys = []string{"a", "b", "c", "d", "e"}
 	longKeys  = []string{"a", "b", "c", "d", "e", "f", "g", "h", "i", "j", "k", "l", "m", "n", "aa", "A", "service.name"}
 )
@@ -95,17 +119,26 @@ func genKVList(t *rapid.T, label string, keys []string, max int) []vk.KV {
 	if max > 10 {
 		corners = []int{2, 5, 12, max}
 	}
+	if max > 20 {
+		corners = []int{max / 2, max, max, max - 1}
+	}
 	return noNaNSlices(vk.GenKVs(o, max, corners...).Draw(t, label))
 }
 
-func genRes(t *rapid.T, label string, keys []string, max int) Res {
-	r := Res{Kind: rapid.SampledFrom([]string{"nil", "empty", "schemaless", "schemaless", "attrs", "attrs", "attrs", "attrs", "attrs", "attrs", "attrs", "attrs"}).Draw(t, label+".kind")}
+func genRes(t *rapid.T, label string, keys []string, max int, pool []string) Res {
+	r := Res{Kind: rapid.SampledFrom([]string{"nil", "empty", "schemaless", "schemaless", "attrs", "attrs", "attrs", "attrs", "attrs", "new", "new", "new"}).Draw(t, label+".kind")}
 	switch r.Kind {
 	case "schemaless":
 		r.KVs = genKVList(t, label+".kvs", keys, max)
 	case "attrs":
-		r.Schema = rapid.SampledFrom(schemasBiased).Draw(t, label+".schema")
+		r.Schema = pickSchemaBiased(t, label+".schema", pool)
 		r.KVs = genKVList(t, label+".kvs", keys, max)
+	case "new":
+		r.Schema = pickSchemaBiased(t, label+".schema", pool)
+		r.Variant = rapid.IntRange(0, 3).Draw(t, label+".variant")
+		if rapid.IntRange(0, 3).Draw(t, label+".bare") != 0 {
+			r.KVs = genKVList(t, label+".kvs", keys, max)
+		}
 	}
 	return r
 }
@@ -114,8 +147,14 @@ func cloneKVs(in []vk.KV) []vk.KV { return append([]vk.KV{}, in...) }
 
 // derive builds an operand related to src: same list (possibly other schema),
 // one value changed, or the list reversed.
-func derive(t *rapid.T, label string, src Res, keys []string) Res {
-	r := Res{Kind: "attrs", Schema: rapid.SampledFrom(schemas).Draw(t, label+".schema"), KVs: cloneKVs(src.KVs)}
+func derive(t *rapid.T, label string, src Res, keys []string, pool []string) Res {
+	r := Res{Kind: rapid.SampledFrom([]string{"attrs", "attrs", "new"}).Draw(t, label+".kind"), Schema: pickSchema(t, label+".schema", pool), KVs: cloneKVs(src.KVs)}
+	if r.Kind == "new" {
+		r.Variant = rapid.IntRange(0, 3).Draw(t, label+".variant")
+	}
+	if src.schema() != "" && rapid.Bool().Draw(t, label+".sameschema") {
+		r.Schema = src.schema() // the same URL through another construction site
+	}
 	switch rapid.IntRange(0, 2).Draw(t, label+".how") {
 	case 0: // identical list
 	case 1: // one more item (changes or adds a key)
@@ -135,23 +174,36 @@ func derive(t *rapid.T, label string, src Res, keys []string) Res {
 
 func genMerge(t *rapid.T) MergeCase {
 	keys, max := shortKeys, 7
-	if rapid.IntRange(0, 4).Draw(t, "longalpha") == 0 {
+	switch a := rapid.IntRange(0, 59).Draw(t, "alphabet"); {
+	case a < 12:
 		keys, max = longKeys, 20
+	case a < 18:
+		keys, max = wildKeys, 12
+	case a == 18:
+		// sizes on a log scale: 16 .. 384 distinct keys, lists of up to that many items
+		n := 16 << rapid.SampledFrom([]int{0, 1, 2, 3, 3, 4, 4, 4}).Draw(t, "big.log2")
+		n += rapid.IntRange(0, n/2).Draw(t, "big.extra") * rapid.IntRange(0, 1).Draw(t, "big.exact")
+		keys = make([]string, n)
+		for i := range keys {
+			keys[i] = fmt.Sprintf("k%03d", i)
+		}
+		max = n + n/4
 	}
+	pool := genSchemaPool(t, "schemas")
 	c := MergeCase{}
-	c.A = genRes(t, "a", keys, max)
+	c.A = genRes(t, "a", keys, max, pool)
 	if rapid.IntRange(0, 2).Draw(t, "b.rel") == 0 {
-		c.B = derive(t, "b", c.A, keys)
+		c.B = derive(t, "b", c.A, keys, pool)
 	} else {
-		c.B = genRes(t, "b", keys, max)
+		c.B = genRes(t, "b", keys, max, pool)
 	}
 	switch rapid.IntRange(0, 5).Draw(t, "c.rel") {
 	case 0:
-		c.C = derive(t, "c", c.A, keys)
+		c.C = derive(t, "c", c.A, keys, pool)
 	case 1:
-		c.C = derive(t, "c", c.B, keys)
+		c.C = derive(t, "c", c.B, keys, pool)
 	default:
-		c.C = genRes(t, "c", keys, max)
+		c.C = genRes(t, "c", keys, max, pool)
 	}
 	return c
 }
@@ -175,6 +227,59 @@ func lend(kvs []vk.KV) ([]attribute.KeyValue, func()) {
 // may reorder it) and is scribbled over as soon as the constructor has
 // returned; the resource must have copied what it keeps.
 func (r Res) build() *resource.Resource {
+	res, _ := r.buildErr()
+	return res
+}
+
+// buildErr also returns the error of the constructor (kind new only).
+func (r Res) buildErr() (*resource.Resource, error) {
+	switch r.Kind {
+	case "new":
+		var opts []resource.Option
+		var scribbles []func()
+		attrOpt := func(kvs []vk.KV) {
+			buf, scribble := lend(kvs)
+			scribbles = append(scribbles, scribble)
+			opts = append(opts, resource.WithAttributes(buf...))
+		}
+		bare := len(r.KVs) == 0 && r.Variant >= 2
+		switch {
+		case bare:
+			opts = append(opts, resource.WithSchemaURL(r.Schema))
+		case r.Variant == 1:
+			attrOpt(r.KVs)
+			opts = append(opts, resource.WithSchemaURL(r.Schema))
+		case r.Variant == 2 && r.splittable():
+			opts = append(opts, resource.WithSchemaURL(r.Schema))
+			attrOpt(r.KVs[:len(r.KVs)/2])
+			attrOpt(r.KVs[len(r.KVs)/2:])
+		default:
+			opts = append(opts, resource.WithSchemaURL(r.Schema))
+			attrOpt(r.KVs)
+		}
+		res, err := resource.New(context.Background(), opts...)
+		for _, f := range scribbles {
+			f()
+		}
+		return res, err
+	}
+	return r.buildPlain(), nil
+}
+
+// splittable: the list may be handed over as two WithAttributes options
+// without changing what the statement promises for it. A list holding an
+// INVALID value is not split: "last value wins" and "invalid items are
+// dropped" compose differently across two lists (package comment).
+func (r Res) splittable() bool {
+	for _, kv := range r.KVs {
+		if kv.T == "invalid" {
+			return false
+		}
+	}
+	return true
+}
+
+func (r Res) buildPlain() *resource.Resource {
 	switch r.Kind {
 	case "nil":
 		return nil
@@ -195,7 +300,7 @@ func (r Res) build() *resource.Resource {
 }
 
 func (r Res) schema() string {
-	if r.Kind == "attrs" {
+	if r.Kind == "attrs" || r.Kind == "new" {
 		return r.Schema
 	}
 	return ""
@@ -207,9 +312,14 @@ func (r Res) schema() string {
 // attrModel is key -> value, bit-exact.
 type attrModel struct {
 	val map[string]attribute.Value
+	// memo of render(): models are filled first and only read afterwards; the
+	// memo is dropped whenever the number of keys differs (cost only).
+	memo *[]string
 }
 
-func newAttrModel() attrModel { return attrModel{val: map[string]attribute.Value{}} }
+func newAttrModel() attrModel {
+	return attrModel{val: map[string]attribute.Value{}, memo: new([]string)}
+}
 
 func (m attrModel) keys() []string {
 	ks := make([]string, 0, len(m.val))
@@ -220,13 +330,19 @@ func (m attrModel) keys() []string {
 	return ks
 }
 
-func renderKV(k string, v attribute.Value) string { return fmt.Sprintf("%q=%s", k, vk.ValueKey(v)) }
+func renderKV(k string, v attribute.Value) string { return strconv.Quote(k) + "=" + vk.ValueKey(v) }
 
 func (m attrModel) render() []string {
+	if m.memo != nil && len(m.val) > 0 && len(*m.memo) == len(m.val) {
+		return *m.memo
+	}
 	ks := m.keys()
 	out := make([]string, len(ks))
 	for i, k := range ks {
 		out[i] = renderKV(k, m.val[k])
+	}
+	if m.memo != nil {
+		*m.memo = out
 	}
 	return out
 }
@@ -452,6 +568,18 @@ func checkAccessors(rep *reporter, label string, r *resource.Resource, m rmodel)
 	if r.SchemaURL() != m.schema {
 		rep.bad("schema_url", "%s: SchemaURL() = %q, model %q", label, r.SchemaURL(), m.schema)
 	}
+	// hostile caller on the OUTPUT side: the slices handed out are the
+	// caller's; it overwrites them. (No assertion here: every resource is read
+	// again by the following merges and at the end of the case.)
+	for i := range got {
+		got[i] = attribute.String("scribbled.by.caller", "out")
+	}
+	if set != nil {
+		sl := set.ToSlice()
+		for i := range sl {
+			sl[i] = attribute.String("scribbled.by.caller", "out")
+		}
+	}
 }
 
 // checkCtor compares a freshly constructed operand with its input list and
@@ -612,7 +740,19 @@ func runMerge(c MergeCase) ([]vk.Violation, vk.Info) {
 	rep := &reporter{}
 	var info vk.Info
 
-	a, b, cc := c.A.build(), c.B.build(), c.C.build()
+	built := map[string]*resource.Resource{}
+	for _, op := range []struct {
+		n string
+		s Res
+	}{{"a", c.A}, {"b", c.B}, {"c", c.C}} {
+		r, err := op.s.buildErr()
+		if err != nil {
+			// one schema URL option and schemaless attribute options: nothing differs.
+			rep.bad("new_spurious_error", "%s: resource.New(WithSchemaURL(%q), WithAttributes...) (variant %d) returned the error %v", op.n, op.s.Schema, op.s.Variant, err)
+		}
+		built[op.n] = r
+	}
+	a, b, cc := built["a"], built["b"], built["c"]
 	am, acm := checkCtor(rep, "a", c.A, a)
 	bm, bcm := checkCtor(rep, "b", c.B, b)
 	cm, ccm := checkCtor(rep, "c", c.C, cc)
@@ -736,10 +876,16 @@ func runMerge(c MergeCase) ([]vk.Violation, vk.Info) {
 	info.ClassIf(confL || confR || confAB || confBC, "triple_schema_conflict")
 	info.ClassIf(nURLs == 1 && (am.schema == "" || bm.schema == "" || cm.schema == ""), "schema_inherited_from_one_side")
 	info.ClassIf(am.schema != "" && am.schema == bm.schema, "a_b_common_schema")
+	info.ClassIf(am.schema != "" && am.schema == bm.schema && c.A.Kind != c.B.Kind, "a_b_common_schema_from_different_constructors")
+	schemaClasses(info.ClassIf, am.schema, bm.schema, cm.schema)
+	info.ClassIf(nearMiss(am.schema, bm.schema), "a_b_conflict_by_one_edit_only")
 	for _, s := range []Res{c.A, c.B, c.C} {
 		info.ClassIf(s.Kind == "nil", "operand_nil")
 		info.ClassIf(s.Kind == "empty", "operand_Empty()")
 		info.ClassIf(s.Kind == "schemaless", "operand_NewSchemaless")
+		info.ClassIf(s.Kind == "new", "operand_New(WithSchemaURL,WithAttributes)")
+		info.ClassIf(s.Kind == "new" && len(s.KVs) == 0 && s.Variant >= 2, "operand_New(WithSchemaURL)_only")
+		info.ClassIf(s.Kind == "new" && len(s.KVs) > 1 && s.Variant == 2 && s.splittable(), "operand_New_two_WithAttributes_options")
 	}
 	for _, m := range []ctorModel{acm, bcm, ccm} {
 		info.ClassIf(m.droppedAny, "ctor_drops_invalid_item")
@@ -747,6 +893,13 @@ func runMerge(c MergeCase) ([]vk.Violation, vk.Info) {
 		info.ClassIf(m.duplicates, "ctor_duplicate_keys")
 		info.ClassIf(len(m.maybe) > 0, "ctor_last_duplicate_invalid(ambiguous)")
 		info.ClassIf(len(m.strict.val) >= 11, "ctor_>=11_keys")
+		info.ClassIf(len(m.strict.val) >= 33, "ctor_>=33_keys")
+		info.ClassIf(len(m.strict.val) >= 129, "ctor_>=129_keys")
+	}
+	info.ClassIf(len(abm.attrs.val) >= 129, "Merge(a,b)_>=129_keys")
+	for _, kv := range c.A.KVs {
+		k := string(kv.K)
+		info.ClassIf(strings.ContainsAny(k, "=,\\ \t\x00") || !utf8.ValidString(k), "key_with_delimiter_space_or_invalid_utf8")
 	}
 	info.ClassIf(len(am.attrs.val) == 0 && len(c.A.KVs) > 0, "only_invalid_items")
 	info.ClassIf(beAB, "a_b_equal")
@@ -773,11 +926,12 @@ func dedupe(info vk.Info) vk.Info {
 func TestMergeAlgebra(t *testing.T) {
 	vk.Run(t, vk.Spec[MergeCase]{
 		Property: "C19", Check: "merge_algebra",
-		Rule: "triples of resources: nil | Empty() | NewSchemaless(kvs) | NewWithAttributes(url, kvs) with url in {\"\", s1, s2} and kv lists of 0..20 items over all value types " +
+		Rule: "triples of resources: nil | Empty() | NewSchemaless(kvs) | NewWithAttributes(url, kvs) | New(WithSchemaURL(url), WithAttributes(kvs)...) (option order / split varied) with url \"\" or drawn from a per-case pool of opaque strings " +
+			"(a realistic or free-form base, two near misses of it by ONE edit: appended / prepended / inserted '/', white space, '#', '?', '.', port, escape, NUL; dropped first / last rune; letter case; http vs https; and an unrelated URL) and kv lists of 0..20 items (1 case in 60: up to ~450 items over 16..384 keys, log scale; 1 in 10: keys with delimiters, white space, NUL, multi-byte and invalid UTF-8) over all value types " +
 			"(empty keys, INVALID values, duplicates, invalid UTF-8; no NaN inside float slices), b and c sometimes derived from a / b (same list, one more item, reversed); " +
 			"hostile caller: every list is lent in a slice with spare capacity and scribbled over after the constructor returned, two lists share one caller-owned array (append(p, more...) prepared up front), every resource is re-checked at the end; " +
 			"non-trivial = at least one pair of operands shares a key with different values; distinct = distinct case encodings",
-		Quick: 40000, Thorough: 500000,
+		Quick: 35000, Thorough: 500000,
 		Gen: genMerge, Run: runMerge,
 	})
 }
